@@ -158,5 +158,29 @@ def run_case(desc):
                 cov["congruence_checked"] += 1
                 if err > tol:
                     viol(f"{method}: result is not congruent to the input as the method prescribes", exact_image=float(img), error=float(err), tolerance=float(tol), **wit)
+    # integer-typed input arrays are real vectors too: the result must not be truncated to the input's dtype
+    if desc.get("idx", 0) % 4 == 3:
+        ints = np.array([[k + j for j in range(d)] for k in (-7, -1, 0, 1, 2, 9, 10, 1000)], dtype=np.int64)
+        for method in METHODS:
+            out = np.asarray(apply_bounds(ints.copy(), bounds, method), dtype=np.float64)
+            cov["integer_dtype_arrays"] += 1
+            for i in range(ints.shape[0]):
+                for j in range(d):
+                    x, o = float(ints[i, j]), float(out[i, j])
+                    lo, hi = float(bounds[j, 0]), float(bounds[j, 1])
+                    if not (lo <= o <= hi):
+                        viol(f"{method}: result outside the box for an integer-typed input array", lower=lo, upper=hi, x=x, out=o)
+                    elif lo <= x <= hi:
+                        if abs(o - x) > 4 * ulp(max(abs(x), abs(lo), abs(hi))):
+                            viol(f"{method}: in-box coordinate of an integer-typed input array was moved", lower=lo, upper=hi, x=x, out=o)
+                    elif method != "clip":
+                        img = exact_image(Fraction(x), F[j][0], F[j][1], method)
+                        tol = Fraction(8 * EPS) * (abs(Fraction(x)) + abs(F[j][0]) + abs(F[j][1]))
+                        R = F[j][1] - F[j][0]
+                        err = abs(Fraction(o) - img)
+                        if method == "toroidal" and err <= R:
+                            err = min(err, R - err)
+                        if tol < R and err > tol:
+                            viol(f"{method}: result for an integer-typed input array is not congruent to the input", lower=lo, upper=hi, x=x, out=o, exact_image=float(img))
     sample = {"box": desc["box"], "n_points": len(desc["points_hex"]), "first_points": desc["points_hex"][:3], "classes": classes[:3]}
     return {"violations": violations, "cov": cov, "nontrivial": [list(x) for x in nontrivial], "sample": sample}
